@@ -702,4 +702,260 @@ theorem runFrom_term (ops : List (Op α)) : ∀ (st : State α) (i : Nat), st.st
         · left; exact ⟨p1, by simpa only [map_tag] using p3⟩
         · right; exact ⟨p1, pre, by simpa only [map_tag] using p2, p3⟩
 
+/-! ## Input contract (batch level) -/
+
+/-- neither `FlushAndRestart` nor `Terminate` -/
+def plainE {β : Type} (e : Elem β) : Bool := !e.isFar && !e.isTerm
+
+/-- the control tail of a batch: `(has FlushAndRestart, has Terminate)` -/
+def tailKind {β : Type} : List (Elem β) → Option (Bool × Bool)
+  | [] => some (false, false)
+  | [.far] => some (true, false)
+  | [.far, .term] => some (true, true)
+  | [.term] => some (false, true)
+  | _ => none
+
+/-- a batch is `plain elements ++ control tail` -/
+def batchKind {β : Type} (es : List (Elem β)) : Option (Bool × Bool) := tailKind (es.dropWhile plainE)
+
+def plainPart {β : Type} (es : List (Elem β)) : List (Elem β) := es.takeWhile plainE
+
+theorem plainPart_plain {β : Type} (es : List (Elem β)) : ∀ e ∈ plainPart es, plainE e = true := by
+  intro e he
+  unfold plainPart at he
+  induction es with
+  | nil => simp at he
+  | cons x xs ih =>
+    simp only [List.takeWhile_cons] at he
+    split at he
+    · rename_i hx
+      rcases List.mem_cons.mp he with h | h
+      · rw [h]; exact hx
+      · exact ih h
+    · simp at he
+
+theorem batch_split {β : Type} (es : List (Elem β)) : es = plainPart es ++ es.dropWhile plainE :=
+  (List.takeWhile_append_dropWhile).symm
+
+/-- `process_side` on plain elements: wrapped one by one, counters untouched -/
+theorem processElems_plain (wrap : α → Bin α) (end_ : Bin α) (cached : Bool) (d rest : List (Elem α))
+    (hd : ∀ e ∈ d, plainE e = true) (mf mt : Nat) :
+    processElems wrap end_ cached mf mt (d ++ rest) =
+      ((processElems wrap end_ cached mf mt rest).1, (processElems wrap end_ cached mf mt rest).2.1,
+       d.map (Elem.map wrap) ++ (processElems wrap end_ cached mf mt rest).2.2.1,
+       (processElems wrap end_ cached mf mt rest).2.2.2) := by
+  induction d with
+  | nil => simp
+  | cons e d ih =>
+    have he : plainE e = true := hd e (by simp)
+    have ih' := ih (fun x hx => hd x (by simp [hx]))
+    have hf : e.isFar = false := by simp [plainE] at he; exact he.1
+    have ht : e.isTerm = false := by simp [plainE] at he; exact he.2
+    simp only [List.cons_append, processElems, hf, ht, Bool.false_eq_true, if_false, Bool.false_and, Bool.false_or]
+    rw [ih']
+    simp
+
+theorem tailKind_cases {β : Type} {tl : List (Elem β)} {hf ht : Bool} (h : tailKind tl = some (hf, ht)) :
+    (tl = [] ∧ hf = false ∧ ht = false) ∨ (tl = [.far] ∧ hf = true ∧ ht = false)
+    ∨ (tl = [.far, .term] ∧ hf = true ∧ ht = true) ∨ (tl = [.term] ∧ hf = false ∧ ht = true) := by
+  unfold tailKind at h
+  split at h <;> simp_all
+
+
+/-! ## `Start` on the three kinds of batches -/
+
+theorem feed_append {β : Type} (s : Noir.Start.State) (r : Nat) (a b : List (Elem β)) :
+    feed s r (a ++ b) = ((feed (feed s r a).1 r b).1, (feed s r a).2 ++ (feed (feed s r a).1 r b).2) := by
+  induction a generalizing s with
+  | nil => simp [feed]
+  | cons e a ih => simp [feed, ih, List.append_assoc]
+
+/-- a live `Start` on plain elements: counters untouched, every data element (and End marker)
+    passed on in order, nothing but plain elements returned -/
+theorem feed_plain (r : Nat) (d : List (Elem (Bin α))) (hd : ∀ e ∈ d, plainE e = true) :
+    ∀ (s : Noir.Start.State), s.missingTerm ≠ 0 →
+    (feed s r d).1.n = s.n ∧ (feed s r d).1.missingFar = s.missingFar
+    ∧ (feed s r d).1.missingTerm = s.missingTerm
+    ∧ (∀ l, presented l (feed s r d).2 = presented l d)
+    ∧ (∀ e ∈ (feed s r d).2, plainE e = true) := by
+  induction d with
+  | nil => intro s _; simp [feed, presented]
+  | cons e d ih =>
+    intro s hs
+    have he : plainE e = true := hd e (by simp)
+    have ih' := ih (fun x hx => hd x (by simp [hx]))
+    have key : (Noir.Start.step s (.elem r e)).1.n = s.n
+        ∧ (Noir.Start.step s (.elem r e)).1.missingFar = s.missingFar
+        ∧ (Noir.Start.step s (.elem r e)).1.missingTerm = s.missingTerm
+        ∧ (∀ l, presented l (Noir.Start.step s (.elem r e)).2 = presented l [e])
+        ∧ (∀ x ∈ (Noir.Start.step s (.elem r e)).2, plainE x = true) := by
+      cases e with
+      | item v => simp [Noir.Start.step, hs, plainE, Elem.isFar, Elem.isTerm]
+      | ts v t => simp [Noir.Start.step, hs, plainE, Elem.isFar, Elem.isTerm]
+      | flushBatch => simp [Noir.Start.step, hs, plainE, Elem.isFar, Elem.isTerm]
+      | wm t =>
+        simp only [Noir.Start.step, hs, if_false]
+        cases (s.frontier.update r t).2 <;> simp [presented, ofSide, plainE, Elem.isFar, Elem.isTerm]
+      | far => simp [plainE, Elem.isFar] at he
+      | term => simp [plainE, Elem.isTerm, Elem.isFar] at he
+    obtain ⟨k1, k2, k3, k4, k5⟩ := key
+    have hs' : (Noir.Start.step s (.elem r e)).1.missingTerm ≠ 0 := by rw [k3]; exact hs
+    obtain ⟨i1, i2, i3, i4, i5⟩ := ih' _ hs'
+    simp only [feed]
+    refine ⟨by rw [i1, k1], by rw [i2, k2], by rw [i3, k3], ?_, ?_⟩
+    · intro l
+      have : presented l (e :: d) = presented l [e] ++ presented l d := by
+        show List.filter _ ([e] ++ d) = _
+        rw [List.filter_append]; rfl
+      rw [this, ← k4 l, ← i4 l]; simp [presented]
+    · intro x hx
+      rcases List.mem_append.mp hx with h | h
+      · exact k5 x h
+      · exact i5 x h
+
+/-- a live `Start` consuming one `FlushAndRestart` -/
+theorem step_far {β : Type} (s : Noir.Start.State) (r : Nat) (hs : s.missingTerm ≠ 0) :
+    (Noir.Start.step s (.elem r (Elem.far : Elem β))).1.n = s.n
+    ∧ (Noir.Start.step s (.elem r (Elem.far : Elem β))).1.missingTerm = s.missingTerm
+    ∧ (if s.missingFar - 1 = 0
+       then (Noir.Start.step s (.elem r (Elem.far : Elem β))).1.missingFar = s.n
+            ∧ (Noir.Start.step s (.elem r (Elem.far : Elem β))).2 = [Elem.far]
+       else (Noir.Start.step s (.elem r (Elem.far : Elem β))).1.missingFar = s.missingFar - 1
+            ∧ (Noir.Start.step s (.elem r (Elem.far : Elem β))).2 = []) := by
+  simp only [Noir.Start.step, hs, if_false, Noir.Start.afterCounters]
+  split <;> simp_all
+
+/-- a live `Start` (not at a round end) consuming one `Terminate` -/
+theorem step_termE {β : Type} (s : Noir.Start.State) (r : Nat) (hs : s.missingTerm ≠ 0) (hf : s.missingFar ≠ 0) :
+    (Noir.Start.step s (.elem r (Elem.term : Elem β))).1.n = s.n
+    ∧ (Noir.Start.step s (.elem r (Elem.term : Elem β))).1.missingFar = s.missingFar
+    ∧ (Noir.Start.step s (.elem r (Elem.term : Elem β))).1.missingTerm = s.missingTerm - 1
+    ∧ (Noir.Start.step s (.elem r (Elem.term : Elem β))).2 = (if s.missingTerm - 1 = 0 then [Elem.term] else []) := by
+  simp only [Noir.Start.step, hs, if_false, Noir.Start.afterCounters]
+  split <;> simp_all
+
+/-- `k ≤ missing_terminate` `Terminate`s in one batch -/
+theorem feed_terms {β : Type} (r : Nat) : ∀ (k : Nat) (s : Noir.Start.State), s.missingFar ≠ 0 → k ≤ s.missingTerm →
+    s.missingTerm ≠ 0 →
+    (feed s r (List.replicate k (Elem.term : Elem β))).1.n = s.n
+    ∧ (feed s r (List.replicate k (Elem.term : Elem β))).1.missingFar = s.missingFar
+    ∧ (feed s r (List.replicate k (Elem.term : Elem β))).1.missingTerm = s.missingTerm - k
+    ∧ (feed s r (List.replicate k (Elem.term : Elem β))).2 = (if k = s.missingTerm then [Elem.term] else []) := by
+  intro k
+  induction k with
+  | zero =>
+    intro s _ _ hs
+    have : ¬ (0 = s.missingTerm) := fun h => hs h.symm
+    simp [feed, this]
+  | succ k ih =>
+    intro s hf hk hs
+    obtain ⟨t1, t2, t3, t4⟩ := step_termE (β := β) s r hs hf
+    simp only [List.replicate_succ, feed]
+    by_cases hlast : s.missingTerm - 1 = 0
+    · have hk0 : k = 0 := by omega
+      subst hk0
+      simp only [List.replicate_zero, feed, List.append_nil]
+      refine ⟨t1, t2, by rw [t3], ?_⟩
+      rw [t4, if_pos hlast, if_pos (by omega)]
+    · obtain ⟨i1, i2, i3, i4⟩ := ih _ (by rw [t2]; exact hf) (by rw [t3]; omega) (by rw [t3]; exact hlast)
+      refine ⟨by rw [i1, t1], by rw [i2, t2], by rw [i3, t3]; omega, ?_⟩
+      rw [t4, if_neg hlast, i4, t3]
+      by_cases h : k = s.missingTerm - 1
+      · rw [if_pos h, if_pos (by omega)]; rfl
+      · rw [if_neg h, if_neg (by omega)]; rfl
+
+/-! ## Output shape: closed rounds and the open one -/
+
+def joinRounds {β : Type} (rs : List (List (Elem β))) : List (Elem β) := rs.flatMap (· ++ [Elem.far])
+
+def Clean {β : Type} (l : List (Elem β)) : Prop := ∀ e ∈ l, plainE e = true
+
+theorem joinRounds_append {β : Type} (a b : List (List (Elem β))) :
+    joinRounds (a ++ b) = joinRounds a ++ joinRounds b := by simp [joinRounds]
+
+theorem splitGo_clean {β : Type} (d : List (Elem β)) (hd : Clean d) (rest cur : List (Elem β))
+    (acc : List (List (Elem β))) : splitGo (d ++ rest) cur acc = splitGo rest (d.reverse ++ cur) acc := by
+  induction d generalizing cur with
+  | nil => rfl
+  | cons e d ih =>
+    have he : plainE e = true := hd e (by simp)
+    have ih' := ih (fun x hx => hd x (by simp [hx]))
+    cases e with
+    | far => simp [plainE, Elem.isFar] at he
+    | item v => simp [splitGo, ih']
+    | ts v t => simp [splitGo, ih']
+    | wm t => simp [splitGo, ih']
+    | flushBatch => simp [splitGo, ih']
+    | term => simp [plainE, Elem.isTerm, Elem.isFar] at he
+
+theorem splitGo_join {β : Type} (rs : List (List (Elem β))) (hrs : ∀ r ∈ rs, Clean r) (rest : List (Elem β))
+    (acc : List (List (Elem β))) : splitGo (joinRounds rs ++ rest) [] acc = splitGo rest [] (rs.reverse ++ acc) := by
+  induction rs generalizing acc with
+  | nil => rfl
+  | cons r rs ih =>
+    have ih' := ih (fun x hx => hrs x (by simp [hx]))
+    simp only [joinRounds, List.flatMap_cons, List.append_assoc] at ih' ⊢
+    rw [splitGo_clean r (hrs r (by simp))]
+    simp only [List.singleton_append, splitGo, List.append_nil, List.reverse_reverse]
+    rw [ih']
+    simp
+
+/-- the rounds of a shaped output are its rounds -/
+theorem splitRounds_shape {β : Type} (rs : List (List (Elem β))) (hrs : ∀ r ∈ rs, Clean r)
+    (cur : List (Elem β)) (hc : ∀ e ∈ cur, e.isFar = false) :
+    splitRounds (joinRounds rs ++ cur) = (rs, cur) := by
+  unfold splitRounds
+  rw [splitGo_join rs hrs]
+  have : ∀ (cur acc' : List (Elem β)) (acc : List (List (Elem β))), (∀ e ∈ cur, e.isFar = false) →
+      splitGo cur acc' acc = (acc.reverse, acc'.reverse ++ cur) := by
+    intro cur
+    induction cur with
+    | nil => intro acc' acc _; simp [splitGo]
+    | cons e cur ih =>
+      intro acc' acc h
+      have he := h e (by simp)
+      have ih' := ih (e :: acc') acc (fun x hx => h x (by simp [hx]))
+      cases e with
+      | far => simp [Elem.isFar] at he
+      | item v => simp [splitGo, ih']
+      | ts v t => simp [splitGo, ih']
+      | wm t => simp [splitGo, ih']
+      | flushBatch => simp [splitGo, ih']
+      | term => simp [splitGo, ih']
+  rw [this cur [] _ hc]
+  simp
+
+theorem grammarGo_clean {β : Type} (d : List (Elem β)) (hd : Clean d) (rest : List (Elem β)) (b : Bool) :
+    grammarGo b (d ++ Elem.far :: rest) = grammarGo true rest := by
+  induction d generalizing b with
+  | nil => simp [grammarGo]
+  | cons e d ih =>
+    have he : plainE e = true := hd e (by simp)
+    have ih' := ih (fun x hx => hd x (by simp [hx]))
+    cases e with
+    | far => simp [plainE, Elem.isFar] at he
+    | term => simp [plainE, Elem.isTerm, Elem.isFar] at he
+    | item v => simp [grammarGo, ih']
+    | ts v t => simp [grammarGo, ih']
+    | wm t => simp [grammarGo, ih']
+    | flushBatch => simp [grammarGo, ih']
+
+/-- closed rounds followed by `Terminate` form a complete, well-formed stream -/
+theorem grammarOk_rounds {β : Type} (rs : List (List (Elem β))) (hrs : ∀ r ∈ rs, Clean r) (hne : rs ≠ []) :
+    grammarOk (joinRounds rs ++ [Elem.term]) = true := by
+  have : ∀ (rs : List (List (Elem β))), (∀ r ∈ rs, Clean r) → ∀ b, (b = true ∨ rs ≠ []) →
+      grammarGo b (joinRounds rs ++ [Elem.term]) = true := by
+    intro rs
+    induction rs with
+    | nil => intro _ b hb; rcases hb with hb | hb; · simp [joinRounds, grammarGo, hb]
+             · exact absurd rfl hb
+    | cons r rs ih =>
+      intro h b _
+      have e1 : joinRounds (r :: rs) ++ [Elem.term] = r ++ Elem.far :: (joinRounds rs ++ [Elem.term]) := by
+        simp [joinRounds]
+      rw [e1, grammarGo_clean r (h r (by simp))]
+      exact ih (fun x hx => h x (by simp [hx])) true (Or.inl rfl)
+  exact this rs hrs false (Or.inr hne)
+
+
 end Noir.BinaryStart
